@@ -265,9 +265,10 @@ def run_readme_order(prop: str, seed: int, fixed_plan: dict | None = None) -> di
             if not ctl.ok or not plan["lifetimes"] or Q.is_shuffled(plan["world"]):
                 res["verdict"] = "skipped"
                 return res
-        if prop != "C11":
-            for lt in plan["lifetimes"]:
+        for lt in plan["lifetimes"]:
+            if prop != "C11":
                 lt.pop("crash", None)
+            lt.pop("ctor", None)  # (the decoy of the config-object route would switch 64-bit mode on first)
         plan["readme_order"] = True
         res["plan"] = plan
         cplan = dict(P.control_plan(plan["world"], plan["Tmax"]), devices=plan.get("devices", 1))
